@@ -61,6 +61,20 @@ CLAIMS = {
                 "exactness of the inverse CDF, spot distance, beta from explicit vectors or positions at s>0.",
         "technique": "value-flow graph + interval, unit, length-class and truth-table predicate analyses",
     },
+    "C06": {
+        "text": "Decides necessary conditions of conformance that are visible in the source on every path, NOT the "
+                "numeric agreement the property states: no subtractively cancelling form (1 - cos t, exp x - 1, "
+                "log(1 + x), sqrt(1 + x) - 1) is evaluated in the closure of the per-event kernel, whose arithmetic is "
+                "single precision (this found the defect that made the pinned tree miss the stated tolerances - "
+                "2(1 - cos t) at t ~ 1e-4 in float32, photon density off by up to a factor 2 - repaired in /repo "
+                "commit d711748); emergence angles below 1 degree are replaced by exactly 1 degree and nothing uses "
+                "the raw angle; 0.1 km steps up to 65 km and the stepper call matches its C++ signature by role; the "
+                "attenuation columns are remaining (reverse) cumulative sums and the shower age the traversed one; "
+                "the contraction pattern of the Hillas angular integration; early exits return exact zeros. It does "
+                "NOT decide the 10 % / 0.5 % / 1 % agreement with a double-precision evaluation or finiteness.",
+        "technique": "numerical-stability lint and structural obligations on the value-flow graph of the kernel "
+                     "closure (pattern rules over resolved calls, effect-free), cross-check against the C++ signature",
+    },
     "C07": {
         "text": "Decides: unit and decimal-scale discipline of the kinematics (only 1e8 converts GeV to 100 PeV, only "
                 "1e-3 with c in m/s gives km, gamma is energy over mass, radians into sin); non-negativity of decay "
@@ -227,11 +241,7 @@ CLAIMS = {
     },
 }
 
-NOT_APPLICABLE = {
-    "C06": "event-by-event agreement (10 % / 0.5 % median / 1 %) of a 600-line float32 kernel with an independent "
-           "double-precision evaluation quantifies over runtime values; no sound static argument in reach bounds "
-           "float32 rounding through 2(1-cos t) at t~1e-4, so static analysis cannot address it here",
-}
+NOT_APPLICABLE = {}
 for _p in ["C%02d" % k for k in range(1, 21)]:
     if _p not in CLAIMS and _p not in NOT_APPLICABLE:
         NOT_APPLICABLE[_p] = PENDING
